@@ -636,7 +636,7 @@ def run(ctx):
     from .c08 import _take as _take_o
     r_oo = Rule("C19", "C19.R6", "save_to of an or_other select is written on the select only", floor=6,
                 necessary="two fields saving to one entity property: the free-text companion overwrites the selected value")
-    _take_o(r_oo, _c09o.run(ctx), "C09.R6", lambda c: c.startswith("or_other["))
+    _take_o(r_oo, ctx.other(_c09o), "C09.R6", lambda c: c.startswith("or_other["))
     rules.append(r_oo)
     return rules
 
